@@ -1353,6 +1353,7 @@ class Explorer:
 		self.sample_every = 25
 		self.with_content = True
 		self.pair_law_depth = 3
+		self.content_depth = 4  # Eq/Ord/Hash/Clone checks on the objects reached by <= 4 operations
 
 	# ---- running one MIR function to completion on a state whose root frame holds the object
 	def call(self, st, fn, args):
@@ -2623,7 +2624,7 @@ class Explorer:
 		self.timed_out = False
 		while work:
 			s, model, hist = work.pop()
-			if self.with_content and hist:
+			if self.with_content and hist and len(hist) <= self.content_depth:
 				try:
 					survivors = self.content_checks(s, model, hist)
 				except MirError as e:
